@@ -1,5 +1,6 @@
 import ParryModel.C04.DriverClosed
 import ParryModel.C04.ModelGlue
+import ParryModel.C04.Driver2D
 /-!
 # C04 protocol handlers, glue: `intersects_local_ray` / `intersects_ray` (boolean forms of the trait)
 
@@ -105,6 +106,48 @@ def handlerGlue (fn : String) : Option Handler :=
       oracle := fun a o => withArgs (do let n ← pv3; let m ← piso3; let ra ← pray; pure (n, m, ra)) a fun (n, m, ra) =>
         let M := qiso3 m
         halfspaceMeetsOracle (q3 n) (M.invAct (q3 ra.o)) (M.invRot (q3 ra.d)) ra.maxQ o }
+  -- 2-D posed ball: judged in the world frame (the posed ball is the ball about the translation), like `bsphere_normal`
+  | "ball2_posed" => some {
+      model := fun a => run (do let r ← pf; let m ← piso2; let ra ← pray2
+                                pure (fhit2d ((Ball.mk r).castRayAndGetNormal2 m ⟨ra.o, ra.d⟩ ra.max ra.solid))) a
+      oracle := fun a o => withArgs (do let r ← pf; let m ← piso2; let ra ← pray2; pure (r, m, ra)) a fun (r, m, ra) =>
+        ballOracle ((emb (q2 ra.o)).sub (emb (q2 m.t))) (emb (q2 ra.d)) (q r) ra.maxQ ra.solid (embOut (parseOut2 o)) }
+  | "ball2_posed_toi" => some {
+      model := fun a => run (do let r ← pf; let m ← piso2; let ra ← pray2
+                                pure (ftoi ((Ball.mk r).castRay2 m ⟨ra.o, ra.d⟩ ra.max ra.solid))) a
+      oracle := fun a o => withArgs (do let r ← pf; let m ← piso2; let ra ← pray2; pure (r, m, ra)) a fun (r, m, ra) =>
+        ballOracle ((emb (q2 ra.o)).sub (emb (q2 m.t))) (emb (q2 ra.d)) (q r) ra.maxQ ra.solid (parseOut o) }
+  -- 2-D posed cuboid: time judged exactly in the local frame (exact inverse transform of the ray); the world normal is
+  -- pulled back and must be a unit vector facing the ray, axis-aligned (or −dir at a corner)
+  | "cuboid2_posed_toi" => some {
+      model := fun a => run (do let he ← pv2; let m ← piso2; let ra ← pray2
+                                pure (ftoi ((Cuboid2.mk he).castRay bigF m ⟨ra.o, ra.d⟩ ra.max ra.solid))) a
+      oracle := fun a o => withArgs (do let he ← pv2; let m ← piso2; let ra ← pray2; pure (he, m, ra)) a fun (he, m, ra) =>
+        let H := q2 he; let M := qiso2 m
+        boxOracle ⟨-H.x, -H.y, -1⟩ ⟨H.x, H.y, 1⟩ (emb (M.invAct (q2 ra.o))) (emb (M.invRot (q2 ra.d))) ra.maxQ ra.solid (parseOut o) }
+  | "cuboid2_posed" => some {
+      model := fun a => run (do let he ← pv2; let m ← piso2; let ra ← pray2
+                                pure (fhit2d ((Cuboid2.mk he).castRayAndGetNormal bigF m ⟨ra.o, ra.d⟩ ra.max ra.solid))) a
+      oracle := fun a o => withArgs (do let he ← pv2; let m ← piso2; let ra ← pray2; pure (he, m, ra)) a fun (he, m, ra) =>
+        let H := q2 he; let M := qiso2 m
+        let O := M.invAct (q2 ra.o); let D := M.invRot (q2 ra.d)
+        let mn : V3 Rat := ⟨-H.x, -H.y, -1⟩; let mx : V3 Rat := ⟨H.x, H.y, 1⟩
+        let res := boxOracle mn mx (emb O) (emb D) ra.maxQ ra.solid
+          (match parseOut2 o with | .hit t _ f => .hit t none f | .miss => .miss | .bad w => .bad w)
+        if res != "pass" then res else
+        match parseOut2 o with
+        | .hit t nf _ =>
+          let tq := q t
+          let scale := 1 + absV (emb O) + 2 * absV (emb H)
+          if tq = 0 ∧ ra.solid ∧ boxDepth mn mx (emb O) ≤ tol * scale then "pass" else
+          if !(FloatIO.isFinite nf.x && FloatIO.isFinite nf.y) then "fail nonfinite-normal" else
+          let nl := M.invRot (q2 nf)
+          if rabs (nl.normSq - 1) > 1 / 1000000 then "fail normal-not-unit"
+          else if nl.dot D > 0 ∧ sqr (nl.dot D) > sqr (1 / 1000000) * D.normSq then "fail normal-not-facing-ray"
+          else if rabs nl.x ≤ 1 / 1000000 ∨ rabs nl.y ≤ 1 / 1000000 then "pass"
+          else if sqr (cross2 nl D) ≤ sqr (1 / 1000000) * D.normSq then "pass"
+          else "fail normal-not-axis-aligned"
+        | _ => "pass" }
   | _ => none
 
 end C04
